@@ -2,7 +2,7 @@
   C04 — the concrete cases used by the witness theorems of the known deviations (they are also the
   `witness` entries of known_findings.d/C04.json and the corpus).
 -/
-import AttrsModel.Spec.C04
+import AttrsModel.Spec.C04Base
 
 namespace Attrs.C04
 
